@@ -102,3 +102,124 @@ def gen(rng, tier):
         pre = {k: f"old_{k}" for k in rng.sample(["a", "b", "c", "x", ("a", "b")], rng.randint(0, 3))}
         yield {"func": _PF(out, tagging_picker), "r": f"result{rng.randint(0, 9)}", "output_name": req,
                "all_results": pre, "lazy": rng.random() < 0.3}
+
+
+# ---- Pipeline._get_func_args: the resolution order of C02 ---------------------------------------------------------------
+from pyvc.types import TOpt, TSet  # noqa: E402
+
+DSO = TDict(TStr, TObj)
+PipelineArgsView = TRec("PipelineArgsView", {"output_to_func": TDict(TOut, TObj), "defaults": DSO})
+PipeFuncArgsView = TRec("PipeFuncArgsView", {"parameters": SS, "_bound": DSO})
+UsedT = TSet(TOpt(TStr))
+
+
+def _upstream(S, a, arg):
+    """The value the pipeline computes for the upstream output `arg` under these keyword arguments (spec function)."""
+    return S.uf("spec:upstream-value", TObj, a.self, arg, a.flat_scope_kwargs)
+
+
+run_upstream = Contract(
+    f"{F}::PipelineArgsView._run",
+    params={"self": PipelineArgsView, "output_name": TOut, "flat_scope_kwargs": DSO, "all_results": DRes,
+            "full_output": TBool, "used_parameters": UsedT},
+    returns=TObj, trusted=True, pure=False, modifies=("all_results", "used_parameters"),
+    ensures=lambda S, a, r, post: ({
+        "value": S.implies(S.is_tag(a.output_name, "str"), lambda: S.eq(r, S.uf(
+            "spec:upstream-value", TObj, a.self, S.untag(a.output_name, "str"), a.flat_scope_kwargs))),
+        "used-parameters only grow": S.forall_key(TOpt(TStr), lambda k: S.implies(
+            S.in_set(a.used_parameters, k), lambda: S.in_set(post.used_parameters, k))),
+    } if S.symbolic else {}),
+    note="Pipeline._run on an upstream output: the recursive evaluation (its value is the spec function "
+         "upstream-value; it may enter results and mark parameters as used)",
+)
+
+
+def _some_str(S, x):
+    if S.symbolic:
+        from pyvc.types import Val, unwrap, wrap
+        o = TOpt(TStr)
+        return unwrap(Val(o, o.some(wrap(x).t)))
+    return x
+
+
+def _resolvable(S, a, arg):
+    return S.or_(S.has(a.func._bound, arg), S.has(a.flat_scope_kwargs, arg),
+                 S.has(a.self.output_to_func, S.inject(TOut, "str", arg)), S.has(a.self.defaults, arg))
+
+
+def _resolved(S, a, arg):
+    return S.ite(S.has(a.func._bound, arg), lambda: a.func._bound[arg], lambda: S.ite(
+        S.has(a.flat_scope_kwargs, arg), lambda: a.flat_scope_kwargs[arg], lambda: S.ite(
+            S.has(a.self.output_to_func, S.inject(TOut, "str", arg)), lambda: _upstream(S, a, arg),
+            lambda: a.self.defaults[arg])))
+
+
+get_func_args = Contract(
+    f"{F}::Pipeline._get_func_args",
+    params={"self": PipelineArgsView, "func": PipeFuncArgsView, "flat_scope_kwargs": DSO, "all_results": DRes,
+            "full_output": TBool, "used_parameters": UsedT},
+    returns=DSO, modifies=("all_results", "used_parameters"), pure=False,
+    raises=[("ValueError", lambda S, a: S.exists(0, S.len(a.func.parameters), lambda i: S.not_(
+        _resolvable(S, a, a.func.parameters[i]))))],
+    ensures=lambda S, a, r, post: {
+        "one argument per parameter": S.forall_key(TStr, lambda k: S.has(r, k) == S.contains(a.func.parameters, k),
+                                                   domain=() if S.symbolic else list(r) + list(a.func.parameters)),
+        "each argument: bound value, else supplied keyword, else upstream output, else default": S.forall(
+            0, S.len(a.func.parameters), lambda i: S.eq(r[a.func.parameters[i]], _resolved(S, a, a.func.parameters[i]))),
+        "every parameter is marked as used (the marks only grow)": S.and_(
+            S.forall(0, S.len(a.func.parameters), lambda i: S.in_set(post.used_parameters, _some_str(S, a.func.parameters[i]))),
+            lambda: S.forall_key(TOpt(TStr), lambda k: S.implies(S.in_set(a.used_parameters, k),
+                                                                 lambda: S.in_set(post.used_parameters, k)),
+                                 domain=() if S.symbolic else list(a.used_parameters))),
+    },
+    loops={0: LoopSpec(lambda S, a, v, k: {
+        "args so far": S.forall_key(TStr, lambda kk: S.has(v.func_args, kk) == S.exists(
+            0, k, lambda i: S.eq(a.func.parameters[i], kk))),
+        "values so far": S.forall(0, k, lambda i: S.and_(_resolvable(S, a, a.func.parameters[i]), lambda: S.eq(
+            v.func_args[a.func.parameters[i]], _resolved(S, a, a.func.parameters[i])))),
+        "marked so far": S.and_(
+            S.forall(0, k, lambda i: S.in_set(v.used_parameters, _some_str(S, a.func.parameters[i]))),
+            lambda: S.forall_key(TOpt(TStr), lambda kk: S.implies(S.in_set(a.used_parameters, kk),
+                                                                  lambda: S.in_set(v.used_parameters, kk)))),
+    })},
+    locals_={"func_args": DSO},
+)
+ALL += [run_upstream, get_func_args]
+
+from pyvc.spec import CONC_IMPL  # noqa: E402
+
+CONC_IMPL["spec:upstream-value"] = lambda self, arg, kwargs: ("upstream-value-of", arg, tuple(sorted(kwargs)))
+
+
+class _FakePipeline:
+    """What _get_func_args reads of a Pipeline, with a _run that returns a value naming the upstream output."""
+
+    def __init__(self, output_to_func, defaults):
+        self.output_to_func, self.defaults = output_to_func, defaults
+        self.run_calls = []
+
+    def _run(self, *, output_name, flat_scope_kwargs, all_results, full_output, used_parameters):
+        self.run_calls.append(output_name)
+        used_parameters.add("seen-by-upstream")
+        return CONC_IMPL["spec:upstream-value"](self, output_name, flat_scope_kwargs)
+
+
+class _FakeFunc:
+    def __init__(self, parameters, bound):
+        self.parameters, self._bound = tuple(parameters), bound
+
+    def __repr__(self):
+        return f"f{self.parameters}"
+
+
+def gfa_gen(rng, tier):
+    names = ["x", "y", "z", "u"]
+    for _ in range(600 if tier == "quick" else 6000):
+        params = rng.sample(names, rng.randint(0, 4))
+        pick = lambda p: {k: f"{p}:{k}" for k in names if rng.random() < 0.35}  # noqa: E731
+        o2f = {k: "producer" for k in names if rng.random() < 0.3}
+        if rng.random() < 0.2:
+            o2f[("p", "q")] = "producer2"
+        yield {"self": _FakePipeline(o2f, pick("default")), "func": _FakeFunc(params, pick("bound")),
+               "flat_scope_kwargs": pick("kwarg"), "all_results": {}, "full_output": rng.random() < 0.5,
+               "used_parameters": set()}
